@@ -167,7 +167,9 @@ Definition wf_set_state (s : st) (x : state) : option st :=
 (* Workflow._fail_workflow / _succeed_workflow / _cancel_workflow (no output expressions in core) *)
 Definition fail_workflow (s : st) : option st :=
   if is_completed (wf_state s) then Some s else wf_set_state s ERROR.
-Definition succeed_workflow (s : st) : option st := wf_set_state s SUCCESS.
+(* F21 fix: a workflow that has already succeeded is not completed once again *)
+Definition succeed_workflow (s : st) : option st :=
+  if state_eqb (wf_state s) SUCCESS then Some s else wf_set_state s SUCCESS.
 Definition cancel_workflow (s : st) : option st :=
   if is_completed (wf_state s) then Some s else wf_set_state s CANCELLED.
 
